@@ -131,6 +131,7 @@ pub fn check(c: &Case) -> Outcome {
         }
     }
     let mut st = St::new(&mvars, c.table.clone());
+    st.map_order_known = true;
     let model = eval(&e, &mut st);
     if let Err(Stop::Unsupported(w)) = &model {
         return Outcome::Skip(w);
@@ -165,6 +166,62 @@ pub fn check(c: &Case) -> Outcome {
     }
     let nt = (len >= 2 && (early || model.is_err())) || is_map || c.inner.is_some() || (len >= 2 && c.body % N_PRED >= 5);
     pass_n(nt, cl)
+}
+
+/// ranges over maps with bodies that do not log: the visit order is unknown, so only order-insensitive
+/// outcomes are compared (booleans for total predicates; mapped / filtered lists as multisets)
+#[derive(Clone, Debug, Serialize, Deserialize)]
+pub struct MapCase {
+    pub mac: Mac,
+    pub arity: usize,
+    pub range: V,
+    pub body: u8,
+    pub literal_range: bool,
+}
+
+fn multiset_eq(a: &[V], b: &[V]) -> bool {
+    if a.len() != b.len() {
+        return false;
+    }
+    let mut used = vec![false; b.len()];
+    a.iter().all(|x| {
+        if let Some(i) = (0..b.len()).find(|i| !used[*i] && same(x, &b[*i])) {
+            used[i] = true;
+            true
+        } else {
+            false
+        }
+    })
+}
+
+pub fn check_map_unordered(c: &MapCase) -> Outcome {
+    // total, pure bodies only (0..=4 of pred(), transformer 0/1 of xform())
+    let body: Vec<E> = match (c.mac, c.arity) {
+        (Mac::Map, 1) => vec![xform(c.body % 2)],
+        (Mac::Map, _) => vec![pred(c.body % 5), xform((c.body / 5) % 2)],
+        _ => vec![pred(c.body % 5)],
+    };
+    let (range_e, vars) = if c.literal_range { (E::Lit(c.range.clone()), vec![]) } else { (E::var("xs"), vec![("xs".to_string(), c.range.clone())]) };
+    let e = E::Macro(c.mac, b(range_e), "x".into(), body);
+    let src = e.render();
+    let got = match sut::run_logged(&src, &vars, &vec![]).0 {
+        Ran::Done(r) => r,
+        o => return fail(format!("`{src}`: {}", o.show())),
+    };
+    let mut st = St::new(&vars, vec![]);
+    st.map_order_known = true; // any order: the comparison below is order-insensitive
+    let model = eval(&e, &mut st);
+    let ok = match (&model, &got) {
+        (Ok(V::List(a)), crate::sut::R::Val(V::List(g))) => multiset_eq(a, g),
+        (Ok(v), crate::sut::R::Val(g)) => same(v, g),
+        (Err(Stop::Err(_)), crate::sut::R::Err(..)) => true,
+        (Err(Stop::Unsupported(w)), _) => return Outcome::Skip(w),
+        _ => false,
+    };
+    if !ok {
+        return fail(format!("`{src}` with xs = {:?}: the fold over the keys (in any order) gives {:?}, interpreter gives {}", c.range, model, got.show()));
+    }
+    pass_n(true, vec![c.mac.name(), "map-range-unordered-comparison"])
 }
 
 fn list_of(mut i: u64, len: usize) -> V {
@@ -291,6 +348,31 @@ pub fn run(r: &mut Runner) {
         },
         check,
     );
+    {
+        // every map over int keys {0..3} (16 key sets) x forms x pure bodies, as variable and as literal
+        let mut cases = vec![];
+        for mask in 0..16u32 {
+            let es: Vec<(V, V)> = (0..4).filter(|k| mask & (1 << k) != 0).map(|k| (V::Int(k), V::Str(format!("v{k}")))).collect();
+            for (mac, arity) in MACS {
+                for body in 0..10u8 {
+                    for literal_range in [false, true] {
+                        cases.push(MapCase { mac, arity, range: V::Map(es.clone()), body, literal_range });
+                    }
+                }
+            }
+        }
+        // string and mixed keys
+        for es in [vec![(V::s("a"), V::Int(1))], vec![(V::s("a"), V::Int(1)), (V::s("b"), V::Int(2))], vec![(V::Bool(true), V::Int(1)), (V::UInt(2), V::Int(2)), (V::Int(3), V::Int(3))]] {
+            for (mac, arity) in MACS {
+                for body in [3u8, 4, 8, 9] {
+                    for literal_range in [false, true] {
+                        cases.push(MapCase { mac, arity, range: V::Map(es.clone()), body, literal_range });
+                    }
+                }
+            }
+        }
+        r.sweep("maps-x-forms-x-pure-bodies-unordered", cases, check_map_unordered);
+    }
     r.random(
         "nested-two-deep",
         120,
